@@ -2,7 +2,8 @@
 From Coq Require Import List ZArith Bool.
 Import ListNotations.
 From TI Require Import lib.Term lib.TermFacts model.Block model.Padding model.Trim model.TrimSpec
-     proofs.TrimCalc proofs.TrimProofs proofs.TrimTerm proofs.TrimBlock proofs.TrimExamples.
+     proofs.TrimCalc proofs.TrimProofs proofs.TrimTerm proofs.TrimBlock proofs.TrimExamples
+     model.TrimCanvas proofs.TrimSnapshot.
 Open Scope Z_scope.
 
 (** [_ti_calc_trim]: on an axis [size = pad1 + img + pad2] with the visible window
@@ -150,3 +151,23 @@ Theorem C17_source_calc_trim_is_model :
     = TI.model.Trim.calc_trim size image_size trim1 pad1 trim2 pad2.
 Proof. exact TI.proofs.PureTieTrim.ti_calc_trim_is_model. Qed.
 Print Assumptions C17_source_calc_trim_is_model.
+
+(** The canvas is a snapshot: [content] is a function of what the canvas stored when it was
+    built (size, image size, lines) and of the widget's fixed alignment.  Whatever size the
+    shared image has been given by later renders (the [live] state), an earlier canvas
+    yields the same rows; only the disguise suffix of graphics rows follows live state.
+    (True by construction of the model; that the real code behaves like this model is what
+    the correspondence's render/request histories test.) *)
+Theorem C17_canvas_is_snapshot :
+  forall cv lv1 lv2 tl tt cols rows,
+  (cv_gfx cv = true -> lv_disguise lv1 = lv_disguise lv2) ->
+  TrimCanvas.content cv lv1 tl tt cols rows = TrimCanvas.content cv lv2 tl tt cols rows.
+Proof. exact canvas_is_snapshot. Qed.
+Print Assumptions C17_canvas_is_snapshot.
+
+Theorem C17_content_of_text_canvas :
+  forall render W H w h ha va lv tl tt cols rows,
+  TrimCanvas.content (build false render (W, H) (w, h) (ha, va)) lv tl tt cols rows
+  = map (fun r => (r, O)) (content_text ha va W H w h (ti_lines render) tl tt cols rows).
+Proof. exact content_of_text_canvas. Qed.
+Print Assumptions C17_content_of_text_canvas.
